@@ -688,6 +688,25 @@ func unconditionalCounterAppend(app *ssa.Call, val ssa.Value) bool {
 	if !ok {
 		return false
 	}
+	// exactly one element is appended per iteration, and the counter advances by one
+	if sl, ok := app.Call.Args[1].(*ssa.Slice); ok {
+		if arr, ok := sl.X.(*ssa.Alloc); ok {
+			if at, ok := arr.Type().Underlying().(*types.Pointer).Elem().Underlying().(*types.Array); !ok || at.Len() != 1 {
+				return false
+			}
+		}
+	}
+	step := false
+	for _, e := range phi.Edges {
+		if b, ok := e.(*ssa.BinOp); ok && b.Op == token.ADD && b.X == phi {
+			if k, ok := ssau.ConstInt(b.Y); ok && k == 1 {
+				step = true
+			}
+		}
+	}
+	if !step {
+		return false
+	}
 	for _, l := range ssau.Loops(app.Parent()) {
 		if l.Header != phi.Block() || !l.Blocks[app.Block()] {
 			continue
